@@ -87,3 +87,136 @@ reg("C06",
     "Float assumed IEEE; the exact-arithmetic interval statement (probability p_e per edge) is checked by the oracle.",
     "Lean 4 law-free theorems + differential correspondence + exact rational oracle",
     "DESIGN.md §3 C06")
+
+reg("C01",
+    "PARTIAL. Lean (alpha:=R): the algebraic reduction of unbiasedness - coordinate groups read disjointly, edge probabilities sum "
+    "to one, rescaling normalises the tropical polynomials, Box-Muller radius identity, the weighted propagator sum at the returned "
+    "momenta equals c^2|q|^2 + (p^T X p - u^T L^-1 u), Jacobian determinant of the momentum map det(cQ^-T)^2 det L = c^(2L), gauge "
+    "invariance of the weight; collected in `reduction`. The integral identity itself needs Schwinger parametrisation, Borinsky's "
+    "sector-density theorem and inverse-CDF/Box-Muller, which are cited, not formalised. Tie to the code: end-to-end correspondence "
+    "of sample on multi-loop/massive/non-trivial routings; supporting fixed-seed Monte Carlo against closed forms (tadpole, bubble, "
+    "two-tadpole product under two routings; mean of jacobian*g = (pi/alpha)^(DL/2) for triangle, sunrise k1+-k2, double triangle, banana).",
+    "Three classical theorems cited; Monte Carlo is a statistical supporting test (6 sigma + 0.5%), not a proof.",
+    "Lean 4 reduction theorem (partial) + differential correspondence + closed-form Monte Carlo support",
+    "DESIGN.md §3 C01")
+
+reg("C02",
+    "PARTIAL/conditional. Lean (alpha:=R): a sum of non-negative monomials lies between its largest term and card x largest; "
+    "with coefficients c_i >= c_min: c_min max <= sum <= (sum c_i) max; and, given U_tr<=U<=N U_tr and (c_min/N)V_tr<=V<=C V_tr, "
+    "N^(-D/2) C^(-dod) <= (U_tr/U)^(D/2)(V_tr/V)^dod <= (N/c_min)^dod (monotonicity of rpow; non-vacuity example). The premises "
+    "(U, F are the Symanzik sums; tropical values are the largest monomials) are the cited parts of C07-C09. On the real code the "
+    "bounds and the ratio interval are checked with exact N_T, c_min, C_sum at uniform, corner and rare-sector points (kappa<=1e8).",
+    "Conditional on the matrix-tree / 2-forest identities and greedy optimality (cited).",
+    "Lean 4 conditional theorem + exact rational oracle on the real code",
+    "DESIGN.md §3 C02")
+
+reg("C07",
+    "Lean: law-free - the rescaling multiplies all parameters by one factor and returns u_trop=v_trop=one; one removal step writes "
+    "kappa to the removed edge, updates v_trop iff spanning is lost, u_trop iff the loop number drops, then kappa*=xi^(1/omega(g')) "
+    "with the remaining graph; the last removal draws no xi. alpha:=R - the common rescaling makes (s^L U_tr)^(D/2)(s V_tr)^dod = 1. "
+    "That the logged tropical values are the MAXIMAL monomials rests on greedy optimality on the cographic matroid (cited): decided "
+    "on the real code by brute force over all spanning trees / F monomials (exact), together with the sector formula (mpmath) and the "
+    "normalisation.",
+    "Greedy optimality cited; powf accuracy measured.",
+    "Lean 4 theorems (law-free + real) + differential correspondence on the debug log + brute-force exact oracle",
+    "DESIGN.md §3 C07")
+
+reg("C08",
+    "Lean: law-free - Metadata.l_matrix is symmetric bit for bit. alpha:=R, every L and E - L_ij = sum_e x_e s_ei s_ej; the returned "
+    "u is det(S^T X S) (via the C15 proof, pivots positive); det L is invariant under every unimodular change of cycle basis and "
+    "edge re-orientation (L' = P^T L P, integer P with det +-1). det L = spanning-tree sum is the matrix-tree theorem (not in "
+    "Mathlib, cited): decided on the real code by the exact spanning-tree oracle for fundamental, unimodularly transformed "
+    "(|entries|>=2) and sparse face bases with condition-scaled tolerance.",
+    "Matrix-tree theorem cited; rounding measured with tolerance 100 L^2 eps cond(L).",
+    "Lean 4 theorems (Mathlib matrices) + differential correspondence + exact spanning-tree oracle",
+    "DESIGN.md §3 C08")
+
+reg("C09",
+    "Lean (alpha:=R, every E, L, D): closed forms of compute_u_vectors and compute_v_polynomial (the folds as sums); completing the "
+    "square sum_e x_e (Sk+p)_e^2 = (k+L^-1u)^T L (k+L^-1u) + V, hence V = min_k for x>=0, attained at -L^-1u; V is invariant under a "
+    "change of cycle basis (P invertible), edge re-orientations and constant loop-momentum offsets. V U = F (2-forest sum) is the "
+    "second Symanzik formula (cited): decided on the real code by the exact 2-forest oracle with exactly conserved dyadic momenta, "
+    "three routings per point, tolerance scaled by exact cond(L) kappa_V.",
+    "2-forest formula cited; rounding measured.",
+    "Lean 4 theorems (Mathlib matrices) + differential correspondence + exact 2-forest oracle",
+    "DESIGN.md §3 C09")
+
+reg("C10",
+    "Lean (alpha:=R, every L, E, D): closed form of compute_loop_momenta and compute_only_shift (index order of Q^-T, sign of the "
+    "shift); the matrix routine's q_transposed_inverse satisfies Q^-1 L Q^-T = 1; at k = c Q^-T q - L^-1 u the weighted propagator "
+    "sum of one component is c^2|q|^2 + (p^T X p - u^T L^-1 u), and summed over D components plus masses equals v(1+|q|^2/2 lambda). "
+    "On the real code the scalar identity is evaluated exactly at the returned momenta (incl. loops with u_l = 0, sparse bases).",
+    "Rounding measured with condition-scaled tolerance; links between the abstract matrices and the model lists proved by the closed forms.",
+    "Lean 4 theorems (Mathlib matrices) + differential correspondence + exact oracle",
+    "DESIGN.md §3 C10")
+
+reg("C11",
+    "Lean: law-free - an Ok sample returns u_trop=v_trop=one, u = determinant of the decomposition of its L matrix and jacobian = "
+    "(u_trop/u)^halfD (v_trop/v)^dod cached in this order with halfD = from_f64(D/2.0). alpha:=R - jacobian = cached u^(-D/2) v^(-dod); "
+    "gauge invariance: if s normalises the tropical values then the weight in the rescaled gauge equals (U_tr/U)^(D/2)(V_tr/V)^dod "
+    "at the unrescaled parameters. Real code: jacobian recomputed from returned fields (mpmath) and gauge-invariantly from exact "
+    "Symanzik polynomials at the logged unrescaled parameters with the oracle's own normalisation, D odd and even.",
+    "Homogeneity of U, V, U_tr, V_tr is used as hypothesis (from C08/C09 closed forms).",
+    "Lean 4 theorems + differential correspondence + exact/mpmath oracle",
+    "DESIGN.md §3 C11")
+
+reg("C12",
+    "PARTIAL on accuracy. Lean, law-free, for every scalar type and every implementation of the statrs functions: Ok implies the "
+    "value is finite and >0 under the scalar's comparisons (after fix b2abcbe), anything else is GammaError, Ok is exactly the "
+    "implementation's value; the iteration makes at most max_n_iter steps and every return is one of five exits; on `converged` "
+    "the computed residual is < tol*eps. The 2e-8 accuracy over the whole domain is numerical analysis (not provable here): decided "
+    "by mpmath on 1.2e4/3e5 pairs incl. all branch boundaries. The model contains a Lean port of statrs 0.16.1 gamma/ln_gamma/"
+    "gamma_lr/gamma_ur and reproduces the real function bit for bit (value and exit).",
+    "statrs modelled (ported), not verified; accuracy clause oracle-only.",
+    "Lean 4 law-free theorems + bit-exact differential correspondence + mpmath oracle",
+    "DESIGN.md §3 C12")
+
+reg("C13",
+    "Lean: law-free, every D, L - Gaussian number n=l*D+i is the cosine (n even) / sine (n odd) branch of pair floor(n/2), read "
+    "from coordinates base+2 floor(n/2) and +1; exactly L vectors of D components; D L + (D L mod 2) reads. alpha:=R - z1^2+z2^2 = "
+    "-2 ln a and the polar form. Standard normality/independence is the Box-Muller theorem (cited). Bit-exact correspondence for all "
+    "D=1..6 x L=1..5 incl. a down to 2^-1074; mpmath definition oracle.",
+    "Box-Muller theorem cited.",
+    "Lean 4 theorems + bit-exact differential correspondence + mpmath oracle",
+    "DESIGN.md §3 C13")
+
+reg("C14",
+    "Lean, law-free (every scalar type and table, whatever the values): the removal loop reads exactly 2k-2 coordinates for k edges; "
+    "permatuhedral_sampling reads 2E-2; an Ok sample has read exactly 2E-2+1+DL+(DL mod 2) = get_dimension() coordinates; the "
+    "sample depends on the Gamma draw only through its value at (dod, coordinate 2E-2); a Gaussian component reads only its pair. "
+    "Real generic code run with a dependency-tracking scalar (data deps, comparison log, narrowing log), single-coordinate "
+    "perturbation on the f64 code, truncated points.",
+    "'every coordinate influences' is existential: decided by perturbation on the real code.",
+    "Lean 4 non-interference theorems + tracking-scalar instantiation of the real generic code",
+    "DESIGN.md §3 C14")
+
+reg("C17",
+    "Lean, law-free: print_debug_info does not enter the computation (definitional); return_metadata only attaches metadata; "
+    "matrix_stability_test can only turn Ok into an error; the RNG entry point is sample on exactly `dimension` draws; an API whose "
+    "operations leave the state unchanged answers every operation of every history and interleaving as a fresh call. That &self "
+    "methods cannot change the sampler is Rust's aliasing rule + source audit (no statics/interior mutability/unsafe) + Send+Sync. "
+    "Real code: same request twice in one process, reverse order in another process, consecutive near-equal lambda coordinates, "
+    "8/16 threads on a shared sampler, all 8 settings combinations, counting replay RNG, repeated builds.",
+    "Schedules are sampled; the all-interleavings guarantee rests on Rust's type system and the audit.",
+    "Lean 4 theorems + bit-exact replay across histories, processes and threads + source audit",
+    "DESIGN.md §3 C17")
+
+reg("C18",
+    "TRANSLATOR + proof: the serde schema (structs, field names, types, order, every serde attribute, manual impls) is regenerated "
+    "from /repo/src on every run into Lean and `schema_matches` (kernel `decide`) equates it with the model's schema; for the derive "
+    "semantics decode(encode g) = some g for every sampler value, hence every observation (dimension, dod, table, samples) of the "
+    "restored sampler equals the original. Real round trips through serde_json text, serde_json::Value and ciborium on samplers with "
+    "negative / |.|>=2 signature entries and odd/even D L, 40/400 samples compared bit for bit; serialised key tree vs schema.",
+    "serde derive semantics is the model assumption; the regex translator is in the trusted base.",
+    "translator-regenerated Lean schema + Lean round-trip theorem + real round trips",
+    "DESIGN.md §3 C18", category="proof")
+
+reg("C19",
+    "Lean: the model's arithmetic interface has no to_f64, so every sampling definition is accepted without any narrowing; the "
+    "Gamma draw is a parameter and the sample depends on it only through its value at (dod, coordinate 2E-2); u, v and the "
+    "decomposition are computed before/independently of the draw. Real generic code: (i) logging scalar - exactly three narrowings "
+    "(shape, coordinate 2E-2, tolerance) with debug off, none while computing Feynman parameters; (ii) double-double scalar - L, u, "
+    "inverse, u-vectors, v agree with exact rationals of the double-double Feynman parameters to 1e-24 cond.",
+    "transcendental functions of the double-double type go through f64 (so Feynman parameters themselves are f64-accurate).",
+    "Lean 4 theorems (interface without narrowing) + user-scalar instantiations of the real generic code",
+    "DESIGN.md §3 C19")
